@@ -77,6 +77,8 @@ run_directed = directed.run
 
 
 def cases(tier, rng):
+    for c in directed.placeholders_named_but_not_evaluated_cases():
+        yield "directed-placeholders-named-but-not-evaluated", c
     for c in directed.async_message_equals_sync_cases():
         yield "directed-async-message-equals-sync", c
     thorough = tier == "thorough"
